@@ -71,7 +71,7 @@ impl ops::Deref for Segment {
 
 impl PartialEq for Segment {
 	fn eq(&self, other: &Self) -> bool {
-		self.as_pct_str() == other.as_pct_str()
+		crate::utils::pct_eq(self.as_pct_str(), other.as_pct_str())
 	}
 }
 
@@ -85,12 +85,12 @@ impl PartialOrd for Segment {
 
 impl Ord for Segment {
 	fn cmp(&self, other: &Self) -> cmp::Ordering {
-		self.as_pct_str().cmp(other.as_pct_str())
+		crate::utils::pct_cmp(self.as_pct_str(), other.as_pct_str())
 	}
 }
 
 impl Hash for Segment {
 	fn hash<H: hash::Hasher>(&self, state: &mut H) {
-		self.as_pct_str().hash(state)
+		crate::utils::pct_hash(self.as_pct_str(), state)
 	}
 }
